@@ -263,6 +263,11 @@ JudgeValidatedDoc(e, o, d) ==
      /\ J("C04", e, "name / full range of a construct after validation",
           same => \A i \in DOMAIN pr.ns : NodeRangesOK(pr.ns[i], o.nodes[i], tk, tab))
      /\ J("C18", e, "documentation of a construct after validation", same => DocsOK(pr.ns, o.nodes, d, tk))
+     /\ J("C10", e, "redundant-oneway Warning is not exactly on the keyword",
+          same => \A i \in DOMAIN pr.ns :
+                    (pr.ns[i].c = "method" /\ pr.ns[i].ow /\ pr.ns[ItemIx(pr.ns)].ow) =>
+                       Cardinality({k \in DOMAIN o.diags : o.diags[k].tag = "redundant_oneway"
+                                                          /\ o.diags[k].r = Span(tk, tab, pr.ns[i].x.ok, pr.ns[i].x.ok)}) = 1)
 
 JudgeValidate(e) ==
   LET s == VStore(e)
@@ -316,6 +321,9 @@ JudgeQuery(e) ==
          /\ J("C15", e, "walk_symbols order / coverage",
               [k \in DOMAIN e.syms |-> e.syms[k].p] = Walk(ns, e.filter) /\ WalkCoversTree(ns))
          /\ J("C17", e, "name / qualified name of a symbol", NamesOK(ns, e.syms, KeysOfKK(e.kk)))
+         /\ J("C17", e, "name / qualified name of a symbol vs. the names written in the source",
+              (<<e.i, e.id>> \in DOMAIN docs /\ ParseDoc(docs[<<e.i, e.id>>]).ok)
+                 => NamesOKSrc(ParseDoc(docs[<<e.i, e.id>>]).ns, e.syms))
          /\ J("X-strings", e, "signature / details string (extension)", StringsOK(ns, e.syms))
     [] e.ev = "filter" -> J("C15", e, "filter_symbols result", e.paths = FilterPaths(ns, e.filter, e.pred))
     [] e.ev = "find" -> J("C15", e, "find_symbol result", e.found = FindPath(ns, e.filter, e.pred))
